@@ -15,7 +15,7 @@
    arguments or operands; these are decided on generated programs against Sem/Src.v, and the flat shell model
    with the script's functions as its call oracle is compared with /bin/bash on every such program it is defined on. *)
 From Verif Require Import Base.Bytestr Front.Ast Back.BashLines Back.Transpile Back.BashConv Back.NameFacts Back.BashFacts
-  Sem.Src Sem.BashSem Sem.ExprPreserve Sem.StmtPreserve Sem.IfPreserve Sem.FlatLoop Sem.LoopPreserve Sem.CallPreserve.
+  Sem.Src Sem.BashSem Sem.ExprPreserve Sem.StmtPreserve Sem.IfPreserve Sem.FlatLoop Sem.LoopPreserve Sem.CallPreserve Sem.JRun.
 From Coq Require Import ZArith.
 Open Scope N_scope.
 
@@ -153,6 +153,15 @@ Example C02_return_inside_loop :
   (exists X b', b_code SimSamples.s_find_end = b_code SimSamples.s_find_main ++ X /\
      lruns (call_of SimSamples.script_find 1) [] [] [] X (b', bs "4" ++ [10])).
 Proof. exact (conj SimSamples.find_fun_ok (conj SimSamples.find_sample_derivation SimSamples.find_sample_applies)). Qed.
+
+(* The source semantics of calls is executable too: the interpreter's calls (look the definition up, check that it may be
+   called here, bind, run the body with calls one level down, take the returned values) are source calls scall_at, so an
+   answer of the interpreter for code with calls is a J derivation over scall_at - the hypothesis of C02_calls_preserved. *)
+Theorem C02_calls_executable : forall defs fuel d klo mlo XS body sg sg' out,
+  jrun fuel XS (jcall_at defs fuel d klo mlo XS) (Prog body) sg = Some (sg', out, SN) -> env_ok sg ->
+  J (scall_at defs d klo mlo) XS (Prog body) sg sg' out SN.
+Proof. exact jrun_program_sound. Qed.
+Print Assumptions C02_calls_executable.
 
 Example C02_sample : mangled 1 (bs "x") = bs "f1_x" /\ mangled 12 (bs "_h3") = bs "f12__h3".
 Proof. vm_compute. split; reflexivity. Qed.
